@@ -3,13 +3,228 @@ import Preflate.Model.Codec
 namespace Preflate.Proofs
 open Preflate
 
+theorem getBit_cons (c : Option CtxId) (b : Bool) (rest : List Ev) :
+    getBit c (⟨c, b⟩ :: rest) = .ok (b, rest) := by simp [getBit]
+
+theorem putUnary_length (fam row v i : Nat) : (putUnary fam row v i).length = v + 1 := by
+  induction v generalizing i with
+  | zero => simp [putUnary]
+  | succ v ih => simp [putUnary, ih]
+
+theorem getUnary_putUnary (fam row v i fuel : Nat) (rest : List Ev) (h : v < fuel) :
+    getUnary fam row fuel i (putUnary fam row v i ++ rest) = .ok (i + v, rest) := by
+  induction v generalizing i fuel with
+  | zero =>
+    cases fuel with
+    | zero => omega
+    | succ f => simp [getUnary, putUnary, getBit_cons, bind, Except.bind]
+  | succ v ih =>
+    cases fuel with
+    | zero => omega
+    | succ f =>
+      simp only [getUnary, putUnary, List.cons_append, getBit_cons, bind, Except.bind, if_true]
+      rw [ih (i + 1) f (by omega)]
+      congr 2; omega
+
+theorem testBit_split (bits n : Nat) :
+    bits % 2 ^ (n + 1) = (if bits.testBit n then 2 ^ n else 0) + bits % 2 ^ n := by
+  rw [Nat.mod_pow_succ, Nat.testBit_eq_decide_div_mod_eq]
+  have : bits / 2 ^ n % 2 = 0 ∨ bits / 2 ^ n % 2 = 1 := by omega
+  rcases this with h | h <;> simp [h] <;> omega
+
+theorem getNBits_putNBits (fam row bits n : Nat) (rest : List Ev) :
+    getNBits fam row n (putNBits fam row bits n ++ rest) = .ok (bits % 2 ^ n, rest) := by
+  induction n with
+  | zero => simp [getNBits, putNBits, Nat.mod_one]
+  | succ n ih =>
+    simp only [getNBits, putNBits, List.cons_append, getBit_cons, bind, Except.bind, ih]
+    rw [testBit_split]
+
+theorem readBypass_writeBypass (v n acc : Nat) (rest : List Ev) :
+    readBypass n acc (writeBypass v n ++ rest) = .ok (acc * 2 ^ n + v % 2 ^ n, rest) := by
+  induction n generalizing acc with
+  | zero => simp [readBypass, writeBypass, Nat.mod_one]
+  | succ n ih =>
+    simp only [readBypass, writeBypass, List.cons_append, getBit_cons, bind, Except.bind, ih]
+    rw [testBit_split]
+    congr 2
+    split <;> simp [Nat.pow_succ, Nat.add_mul, Nat.mul_assoc, Nat.mul_comm 2] <;> omega
+
+theorem bitLength_bounds (v : Nat) (hv : v ≠ 0) :
+    2 ^ (bitLength v - 1) ≤ v ∧ v < 2 ^ bitLength v ∧ 1 ≤ bitLength v := by
+  cases v with
+  | zero => exact absurd rfl hv
+  | succ n =>
+    simp only [bitLength, Nat.add_sub_cancel]
+    exact ⟨Nat.log2_self_le hv, Nat.lt_log2_self, by omega⟩
+
+theorem bitLength_lt_32 (v : Nat) (h : v < 2 ^ 31) : bitLength v < 32 := by
+  cases v with
+  | zero => simp [bitLength]
+  | succ n =>
+    simp only [bitLength]
+    have := (Nat.log2_lt (n := n + 1) (k := 31) (by omega)).2 h
+    omega
+
+theorem readExp_writeExp (fam row v : Nat) (evs rest : List Ev)
+    (h : writeExp fam row v = .ok evs) : readExp fam row (evs ++ rest) = .ok (v, rest) := by
+  unfold writeExp at h
+  simp only at h
+  split at h
+  · cases h
+  · by_cases hv : v = 0
+    · subst hv
+      simp [bitLength] at h
+      subst h
+      simp only [readExp]
+      rw [getUnary_putUnary _ _ _ _ _ _ (by simp [putUnary_length])]
+      simp [bind, Except.bind]
+    · obtain ⟨hlo, hhi, h1⟩ := bitLength_bounds v hv
+      generalize bitLength v = bl at *
+      split at h
+      · cases h
+        simp only [readExp, List.append_assoc]
+        rw [getUnary_putUnary _ _ _ _ _ _ (by simp [putUnary_length]; omega)]
+        have h0 : ¬ (0 + bl = 0) := by omega
+        have h1' : ¬ (0 + bl = 1) := by omega
+        simp only [bind, Except.bind, h0, h1', if_false]
+        rw [show 0 + bl - 1 = bl - 1 by omega, getNBits_putNBits]
+        simp only [Nat.mod_eq_of_lt hhi]
+        congr 2
+        have : v < 2 ^ (bl - 1 + 1) := by rw [show bl - 1 + 1 = bl by omega]; exact hhi
+        rw [Nat.pow_succ] at this
+        have hm := Nat.mod_add_div v (2 ^ (bl - 1))
+        have : v / 2 ^ (bl - 1) = 1 := by
+          have a : v / 2 ^ (bl - 1) < 2 := (Nat.div_lt_iff_lt_mul (Nat.two_pow_pos _)).2 (by omega)
+          have b : 1 ≤ v / 2 ^ (bl - 1) := (Nat.le_div_iff_mul_le (Nat.two_pow_pos _)).2 (by omega)
+          omega
+        rw [this] at hm; omega
+      · have : bl = 1 := by omega
+        subst this
+        have : v = 1 := by simp at hlo hhi; omega
+        subst this
+        cases h
+        simp only [readExp]
+        rw [getUnary_putUnary _ _ _ _ _ _ (by simp [putUnary_length]; omega)]
+        simp [bind, Except.bind]
+
+theorem writeExp_ok (fam row v : Nat) (h : v < 2 ^ 31) : ∃ evs, writeExp fam row v = .ok evs := by
+  have := bitLength_lt_32 v h
+  unfold writeExp
+  simp only
+  rw [if_neg (by omega)]
+  split <;> exact ⟨_, rfl⟩
+
+/-- the events a pending default count (0 or 1) is flushed to -/
+def pre (c : Nat) : List Ev := if c = 0 then [] else putUnary 0 0 1 0
+
+theorem writeDefault_zero : writeDefault 0 = .ok (putUnary 0 0 0 0) := by
+  simp [writeDefault, writeExp, bitLength]
+
+theorem writeDefault_one : writeDefault 1 = .ok (putUnary 0 0 1 0) := by
+  have : bitLength 1 = 1 := by
+    have := bitLength_bounds 1 (by omega)
+    have h2 : bitLength 1 < 2 := by
+      apply Nat.lt_of_not_le
+      intro hge
+      have : 2 ^ 1 ≤ 2 ^ (bitLength 1 - 1) := Nat.pow_le_pow_right (by omega) (by omega)
+      omega
+    omega
+  simp [writeDefault, writeExp, this]
+
+theorem flushDefault_eq (c : Nat) (hc : c ≤ 1) : flushDefault c = .ok (pre c) := by
+  have : c = 0 ∨ c = 1 := by omega
+  rcases this with rfl | rfl
+  · simp [flushDefault, pre]
+  · simp [flushDefault, pre, writeDefault_one]
+
+theorem readDefault_zero (rest : List Ev) :
+    readExp 0 0 (putUnary 0 0 0 0 ++ rest) = .ok (0, rest) :=
+  readExp_writeExp 0 0 0 _ rest writeDefault_zero
+
+theorem readDefault_one (rest : List Ev) :
+    readExp 0 0 (putUnary 0 0 1 0 ++ rest) = .ok (1, rest) :=
+  readExp_writeExp 0 0 1 _ rest writeDefault_one
+
+theorem aux (ops : List Op) (hwf : ∀ o ∈ ops, o.WF) (c : Nat) (hc : c ≤ 1) :
+    ∃ evs, encodeOps c ops = .ok (pre c ++ evs) ∧
+      ∀ rest, decodeOps 0 (ops.map Op.kind) (evs ++ rest) = .ok (ops, 0, rest) := by
+  induction ops generalizing c with
+  | nil => exact ⟨[], by simp [encodeOps, flushDefault_eq c hc], fun rest => by simp [decodeOps]⟩
+  | cons op ops ih =>
+    have hwf' : ∀ o ∈ ops, o.WF := fun o ho => hwf o (List.mem_cons_of_mem _ ho)
+    have hop : op.WF := hwf op List.mem_cons_self
+    obtain ⟨e0, he0, hd0⟩ := ih hwf' 0 (by omega)
+    obtain ⟨e1, he1, hd1⟩ := ih hwf' 1 (by omega)
+    simp only [pre, if_true, List.nil_append] at he0
+    simp only [pre, if_false, Nat.one_ne_zero] at he1
+    cases op with
+    | value bits v =>
+      obtain ⟨hb1, hb16, hv⟩ := hop
+      refine ⟨writeBypass v bits ++ e0, ?_, fun rest => ?_⟩
+      · simp [encodeOps, encodeOp, flushDefault_eq c hc, bind, Except.bind, he0]
+      · have h16 : v < 65536 := Nat.lt_of_lt_of_le hv
+          (by simpa using Nat.pow_le_pow_right (n := 2) (by omega) hb16)
+        simp only [List.map_cons, Op.kind, decodeOps, decodeOp, List.append_assoc,
+          readBypass_writeBypass, bind, Except.bind]
+        simp [Nat.mod_eq_of_lt hv, Nat.mod_eq_of_lt h16, hd0]
+    | mis ctx flag =>
+      cases flag with
+      | true =>
+        refine ⟨putUnary 0 0 0 0 ++ e0, ?_, fun rest => ?_⟩
+        · simp [encodeOps, encodeOp, flushDefault_eq c hc, bind, Except.bind, he0,
+            writeDefault_zero]
+        · simp [decodeOps, decodeOp, Op.kind, readDefault_zero, bind, Except.bind, hd0]
+      | false =>
+        refine ⟨putUnary 0 0 1 0 ++ e1, ?_, fun rest => ?_⟩
+        · simp [encodeOps, encodeOp, flushDefault_eq c hc, bind, Except.bind, he1]
+        · simp [decodeOps, decodeOp, Op.kind, readDefault_one, bind, Except.bind, hd1]
+    | corr ctx v =>
+      by_cases hv0 : v = 0
+      · subst hv0
+        refine ⟨putUnary 0 0 1 0 ++ e1, ?_, fun rest => ?_⟩
+        · simp [encodeOps, encodeOp, flushDefault_eq c hc, bind, Except.bind, he1]
+        · simp [decodeOps, decodeOp, Op.kind, readDefault_one, bind, Except.bind, hd1]
+      · obtain ⟨w, hw⟩ := writeExp_ok 2 ctx v hop.2
+        refine ⟨putUnary 0 0 0 0 ++ w ++ e0, ?_, fun rest => ?_⟩
+        · simp [encodeOps, encodeOp, flushDefault_eq c hc, bind, Except.bind, he0,
+            writeDefault_zero, hv0, hw]
+        · simp [decodeOps, decodeOp, Op.kind, readDefault_zero, bind, Except.bind, hd0,
+            readExp_writeExp 2 ctx v w _ hw]
+
 theorem decode_encode (ops : List Op) (hwf : ∀ o ∈ ops, o.WF) (rest : List Ev) :
     ∃ evs, encodeOps 0 ops = .ok evs ∧
       decodeOps 0 (ops.map Op.kind) (evs ++ rest) = .ok (ops, 0, rest) := by
-  sorry
+  obtain ⟨evs, h1, h2⟩ := aux ops hwf 0 (by omega)
+  exact ⟨evs, by simpa [pre] using h1, h2 rest⟩
 
 theorem default_count_le_one (c : Nat) (op : Op) (evs : List Ev) (c' : Nat)
     (h : encodeOp c op = .ok (evs, c')) : c' ≤ 1 := by
-  sorry
+  cases op with
+  | value bits v =>
+    simp only [encodeOp, bind, Except.bind] at h
+    split at h
+    · cases h
+    · cases h; omega
+  | mis ctx flag =>
+    simp only [encodeOp, bind, Except.bind] at h
+    split at h
+    · cases h
+    · split at h
+      · split at h
+        · cases h
+        · cases h; omega
+      · cases h; omega
+  | corr ctx v =>
+    simp only [encodeOp, bind, Except.bind] at h
+    split at h
+    · cases h
+    · split at h
+      · split at h
+        · cases h
+        · split at h
+          · cases h
+          · cases h; omega
+      · cases h; omega
 
 end Preflate.Proofs
